@@ -404,8 +404,8 @@ def _pct_keys_for(level):
 _NUM_POS = st.one_of(
     st.sampled_from([0, 0.0, 1, 1.0, 100, 1e-6, 1e-5, 0.004, 0.005, 0.01, 59999, 60000, 1e9]),
     st.integers(0, 10**9),
-    st.floats(0, 1e9, allow_nan=False, allow_infinity=False),
-    st.floats(0, 5000, allow_nan=False, allow_infinity=False),
+    st.floats(1e-6, 1e9, allow_nan=False, allow_infinity=False),
+    st.floats(1e-3, 5000, allow_nan=False, allow_infinity=False),
 )
 _NUM_NEG = st.one_of(_NUM_POS, _NUM_POS.map(lambda v: -v))
 
